@@ -47,7 +47,8 @@ fn any_state_payload() -> DecodeState {
     DecodeState::PublishPayload(n)
 }
 
-/// spec view of a fixed header at the start of `b`: Some((first, rl, header_len)) if complete
+/// spec view of a fixed header at the start of `b` (2.2.3): Some((first, rl, header_len)) if
+/// complete; None if more bytes are needed
 fn spec_fixed(b: &[u8]) -> Option<(u8, u32, usize)> {
     if b.len() < 2 {
         return None;
@@ -64,6 +65,11 @@ fn spec_fixed(b: &[u8]) -> Option<(u8, u32, usize)> {
         i += 1;
     }
     None
+}
+/// a Remaining Length whose fourth byte still has the continuation bit is malformed (2.2.3: at
+/// most four bytes)
+fn spec_fixed_malformed(b: &[u8]) -> bool {
+    b.len() >= 5 && b[1] & 128 != 0 && b[2] & 128 != 0 && b[3] & 128 != 0 && b[4] & 128 != 0
 }
 
 macro_rules! fr3_step_header {
@@ -89,9 +95,13 @@ macro_rules! fr3_step_header {
                         let sf = spec_fixed(&data[..len]);
                         match sf {
                             None => {
-                                // incomplete or over-long length field: need more data or an error, nothing consumed
+                                // incomplete length field: need more data; over-long (5th byte): an error; nothing consumed
                                 assert!(consumed == 0);
-                                assert!(matches!(r, Ok(None) | Err(_)));
+                                if spec_fixed_malformed(&data[..len]) {
+                                    assert!(matches!(r, Err(_)), "five-byte Remaining Length must be rejected");
+                                } else {
+                                    assert!(r == Ok(None));
+                                }
                                 assert!(post == DecodeState::FrameHeader);
                             }
                             Some((first, rl, hl)) => {
@@ -128,6 +138,7 @@ macro_rules! fr3_step_header {
                         vcover!(matches!(r, Err(DecodeError::MaxSizeExceeded { .. })), "FrameHeader: max size exceeded");
                         vcover!(matches!(r, Ok(None)) && consumed > 0, "FrameHeader: header consumed, body pending");
                         vcover!(matches!(r, Ok(Some(Decoded::Publish(..)))), "FrameHeader: publish");
+                        vcover!(spec_fixed_malformed(&data[..len]), "FrameHeader: over-long Remaining Length");
                     }
                     _ => unreachable!(),
                 }
@@ -429,3 +440,162 @@ vharness! {
         vcover!(rl == 268_435_455, "RL 268435455");
     }
 }
+
+vharness! {
+    //@ props: C01 C09
+    //@ tier: quick
+    //@ functions: v3::Codec::encodev (Publish arm), encode::encode_publish, utils::write_variable_length
+    //@ bounds: declared payload sizes for which 2+topic+id+payload_size exceeds 268435455 (the complement of rt3_publish_rl)
+    //@ unwindset: utf8_is_valid=3
+    //@ finding: known K2: the v3 encoder reaches panic!("length is too big") instead of returning an error
+    //@ desc: documents the recorded finding K2: a v3 PUBLISH whose Remaining Length would exceed the MQTT maximum must be refused with an error, not a panic
+    fn rt3_publish_rl_over() unwind(6) {
+        let mut p = any_publish3::<1>();
+        p.payload_size = vk::any_u32();
+        vk::assume((p.qos == QoS::AtMostOnce) == p.packet_id.is_none());
+        let hdr = 2 + p.topic.len() as u64 + if p.packet_id.is_some() { 2 } else { 0 };
+        vk::assume(hdr + p.payload_size as u64 > 268_435_455);
+        let codec = Codec::new();
+        let mut pages = BytePages::default();
+        let r = codec.encodev(Encoded::Publish(p.clone(), None), &mut pages);
+        assert!(r.is_err());
+        assert!(pages.len() == 0);
+        vcover!(p.payload_size == u32::MAX, "largest declared size");
+    }
+}
+
+// ---- C10: fragmentation independence through consecutive decode calls ---------------------------
+/// Independent explanation of the decoder's output against the ORIGINAL stream: every item must
+/// account for the next unexplained stream bytes (in order, nothing skipped, nothing invented).
+struct StreamOracle {
+    pos: usize,
+    pending: u32, // payload bytes of the current PUBLISH still to be delivered
+    in_payload: bool,
+    items: u32,
+}
+
+fn oracle_step(o: &mut StreamOracle, data: &[u8], fed: usize, item: &Decoded) {
+    o.items += 1;
+    match item {
+        Decoded::Packet(_, size) => {
+            assert!(!o.in_payload, "packet interleaved into a streamed payload");
+            let f = spec_fixed(&data[o.pos..fed]);
+            assert!(f.is_some());
+            let (first, rl, hl) = f.unwrap();
+            assert!(!(first >= 0x30 && first <= 0x3f));
+            assert!(rl == *size);
+            assert!(o.pos + hl + rl as usize <= fed, "item produced from bytes not yet received");
+            o.pos += hl + rl as usize;
+        }
+        Decoded::Publish(p, payload, size) => {
+            assert!(!o.in_payload, "publish announced inside a streamed payload");
+            let f = spec_fixed(&data[o.pos..fed]);
+            assert!(f.is_some());
+            let (first, rl, hl) = f.unwrap();
+            assert!(first >= 0x30 && first <= 0x3f);
+            assert!(rl == *size, "declared size");
+            let b = o.pos + hl;
+            // 3.3.2: topic, then packet id iff QoS > 0
+            assert!(b + 2 <= fed);
+            let tl = ((data[b] as usize) << 8) | data[b + 1] as usize;
+            let qos = (first >> 1) & 3;
+            let hdr = 2 + tl + if qos != 0 { 2 } else { 0 };
+            assert!(b + hdr <= fed);
+            assert!(p.topic.as_bytes() == &data[b + 2..b + 2 + tl]);
+            if qos != 0 {
+                let id = ((data[b + 2 + tl] as u16) << 8) | data[b + 3 + tl] as u16;
+                assert!(p.packet_id.map(|v| v.get()) == Some(id));
+            } else {
+                assert!(p.packet_id.is_none());
+            }
+            assert!(p.dup == (first & 8 != 0) && p.retain == (first & 1 != 0) && vh::qos_num(p.qos) == qos);
+            assert!(hdr as u64 <= rl as u64);
+            assert!(p.payload_size as u64 == rl as u64 - hdr as u64, "announced once with its declared size");
+            let pb = b + hdr;
+            assert!(pb + payload.len() <= fed);
+            assert!(&payload[..] == &data[pb..pb + payload.len()], "payload bytes are the stream bytes");
+            assert!(payload.len() as u64 <= p.payload_size as u64, "payload leaked into the next packet");
+            o.pos = pb + payload.len();
+            o.pending = p.payload_size - payload.len() as u32;
+            o.in_payload = o.pending > 0;
+        }
+        Decoded::PayloadChunk(chunk, eof) => {
+            assert!(o.in_payload, "payload chunk without a pending publish");
+            assert!(o.pos + chunk.len() <= fed);
+            assert!(&chunk[..] == &data[o.pos..o.pos + chunk.len()], "payload bytes are the stream bytes, in order");
+            assert!(chunk.len() as u64 <= o.pending as u64, "payload leaked into the next packet");
+            o.pos += chunk.len();
+            o.pending -= chunk.len() as u32;
+            assert!(*eof == (o.pending == 0), "exactly one final piece, at the declared size");
+            o.in_payload = o.pending > 0;
+        }
+    }
+}
+
+/// after a drain (decode returned Ok(None)): everything consumed is explained, and nothing that is
+/// already complete in the buffer was withheld
+fn oracle_quiescent(o: &StreamOracle, data: &[u8], fed: usize, buffered: usize, min_chunk: u32) {
+    assert!(o.pos + buffered == fed, "bytes consumed without being delivered, or delivered twice");
+    if o.in_payload {
+        assert!((buffered as u64) < o.pending as u64);
+        assert!(if min_chunk == 0 { buffered == 0 } else { (buffered as u64) < min_chunk as u64 });
+    } else if let Some((first, rl, hl)) = spec_fixed(&data[o.pos..fed]) {
+        if !(first >= 0x30 && first <= 0x3f) {
+            assert!(o.pos + hl + rl as usize > fed, "complete frame withheld");
+        }
+    }
+}
+
+macro_rules! fg3_cut {
+    ($name:ident, $n:expr, $k:expr) => {
+        vharness! {
+            #[kani::stub(super::super::decode::decode_packet, stub_decode_packet)]
+            fn $name() unwind(10) {
+                let codec = Codec::new();
+                let min_chunk = vk::any_u32();
+                vk::assume(min_chunk <= 4);
+                codec.set_min_chunk_size(min_chunk);
+                let data: [u8; $n] = vk::any_bytes::<$n>();
+                let cut = vk::any_len($n);
+                let mut o = StreamOracle { pos: 0, pending: 0, in_payload: false, items: 0 };
+                let mut src = BytesMut::new();
+                let mut seg = 0;
+                let mut dead = false;
+                while seg < 2 && !dead {
+                    let (a, b) = if seg == 0 { (0, cut) } else { (cut, $n) };
+                    src.extend_from_slice(&data[a..b]);
+                    let fed = b;
+                    let mut k = 0;
+                    let mut quiet = false;
+                    while k < $k && !quiet && !dead {
+                        match codec.decode(&mut src) {
+                            Ok(Some(item)) => oracle_step(&mut o, &data, fed, &item),
+                            Ok(None) => {
+                                oracle_quiescent(&o, &data, fed, src.len(), min_chunk);
+                                quiet = true;
+                            }
+                            Err(_) => dead = true, // the connection ends here; everything before was checked
+                        }
+                        k += 1;
+                    }
+                    // the drain bound $k must suffice (else the harness is too small, not the code wrong)
+                    assert!(quiet || dead, "harness drain bound too small");
+                    seg += 1;
+                }
+                vcover!(!dead && o.items >= 2, "two items from one stream");
+                vcover!(!dead && o.in_payload, "stream ends inside a payload");
+                vcover!(!dead && cut > 0 && cut < $n && o.items >= 1 && o.pos > cut, "an item spans the cut");
+            }
+        }
+    };
+}
+//@ props: C10 C02
+//@ tier: quick
+//@ stubs: yes
+//@ functions: v3::Codec::decode across consecutive calls (all arms, state carried between calls), decode::publish_size, decode_publish_packet
+//@ bounds: every stream of 6 arbitrary bytes cut at every position into two reads; min_chunk_size 0..=4; up to 4 decode calls per read
+//@ unwindset: utf8_is_valid=6 spec_fixed=6 decode_variable_length_cursor=6 extend_from_slice=8
+//@ assumes: non-PUBLISH body decoders replaced by an arbitrary-result stub; payload beyond the stream is modelled by frames whose Remaining Length exceeds the 6 bytes
+//@ mem: 14  timeout: 2400
+//@ desc: the items obtained from a stream explain exactly the stream, in order, for every cut: each PUBLISH announced once with its declared size, payload pieces byte-identical to the stream and summing to at most the declared size, exactly one final piece, no payload byte leaks into the next packet, nothing complete is withheld after a drain
+fg3_cut!(fg3_cut_6, 6, 4);
